@@ -122,7 +122,7 @@ def demoProp : Val :=
                     .tok "0" true, .none, .tok "xs:int" false]
 
 example : ConfV jsonTable (.poly ["Property"]) demoProp := by
-  simp [demoProp, ConfV, ConfF, ConfL, rowsOf, tagOf, jsonTable, rows_Property, DomOk, truthyVal, List.find?]
+  simp [demoProp, ConfV, ConfF, ConfL, rowsOf, tagOf, jsonTable, rows_Property, DomOk, truthyVal, List.find?, isEmptyTok]
 
 example : dec jsonTable false (.poly ["Property"]) (enc jsonTable false demoProp) = .ok demoProp := by rfl
 
